@@ -110,7 +110,35 @@ func wantState(pattern string, nowS int) int {
 	return 0
 }
 
+// c14Others: requests that no pattern can mean — generated subtitle segments, init segments, the MPD — are answered
+// exactly as without the statuscode parameter, whatever the patterns say.
+func c14Others(c *Ctx) {
+	for _, asset := range []string{"testpic_2s", "testpic_8s"} {
+		a := findVAsset(asset)
+		if a == nil {
+			continue
+		}
+		for _, pat := range []string{"[{cycle:30,rsq:0,code:404,rep:V300}]", "[{cycle:10,rsq:1,code:503}]", "[{cycle:4,rsq:0,code:410,rep:*}]"} {
+			for _, k := range []int{5, 6, 15, 16, 30, 31} {
+				now := (k+2)*a.SegmentDurMS + 300
+				for _, tail := range []string{
+					fmt.Sprintf("timesubsstpp_en,sv/%s/timestpp-en/%d.m4s", a.AssetPath, k), fmt.Sprintf("timesubswvtt_en/%s/timewvtt-en/%d.m4s", a.AssetPath, k),
+					fmt.Sprintf("timesubsstpp_en/%s/timestpp-en/init.mp4", a.AssetPath), fmt.Sprintf("%s/V300/init.mp4", a.AssetPath), fmt.Sprintf("%s/Manifest.mpd", a.AssetPath)} {
+					plain := doLive("GET", fmt.Sprintf("/livesim2/%s?nowMS=%d", tail, now))
+					with := doLive("GET", fmt.Sprintf("/livesim2/statuscode_%s/%s?nowMS=%d", pat, tail, now))
+					c.Count("statuscode-others")
+					if with.code != plain.code || with.panicked != "" {
+						c.Violate("other-request-changed", fmt.Sprintf("statuscode_%s changes the answer to a request no pattern applies to: %d %s instead of %d", pat, with.code, with.panicked, plain.code),
+							[]string{fmt.Sprintf("# GET /livesim2/statuscode_%s/%s?nowMS=%d", pat, tail, now)}, nil)
+					}
+				}
+			}
+		}
+	}
+}
+
 func genC14(c *Ctx) {
+	c14Others(c)
 	c.emitAssetDefs()
 	r := c.Rng
 	// ---- traffic patterns: all patterns over {u,d,s,h} x durations up to length 4 (sampled in quick), all seconds of 3 cycles
